@@ -1,12 +1,12 @@
 '''C08 - block CRCs are always valid on output and always checked on input.
 
 Fault enumeration: for a menu of bundles, every single-bit flip and every
-burst (solid and end-points-only patterns, lengths 2..CRC width) that lies
+burst (every pattern up to 8 / 11 bits, solid and end-points-only up to the CRC width) that lies
 inside the encoded span of a CRC-protected block is delivered to a real agent
-whose routes would deliver, forward and report on the bundle.  The independent
-decoder classifies the corrupted octets; where it finds an RFC 9171 bundle with
-a failing block CRC the agent must do nothing with it and must still process
-the pristine copy delivered next.  Every bundle the agent emits is re-checked
+whose routes would deliver, forward and report on the bundle.  Whatever the
+corruption did (block boundaries kept, bundle still decodable, or structure
+destroyed) the agent must do nothing with it and must still process the
+pristine copy delivered next.  Every bundle the agent emits is re-checked
 by the independent CRC.'''
 from ..bp_world import BpWorld
 from ..world import Violation
@@ -15,6 +15,12 @@ from ..evidence import enum_evidence
 from .c02 import admin_payload
 
 PROP = 'C08'
+
+# Some corruptions turn a byte-string head into an integer head; the repository's BstrField
+# then evaluates bytes(<that integer>), i.e. allocates up to 4 GiB of zeros for one bundle.
+# The verdict (the bundle is dropped) does not depend on whether that allocation succeeds,
+# so the workers of this check run under a small address-space ceiling.
+WORKER_MEM_GB = 2
 
 RPT = B.FLAG_REQ_RECEPTION | B.FLAG_REQ_FORWARD | B.FLAG_REQ_DELIVERY | B.FLAG_REQ_DELETION
 
@@ -53,16 +59,28 @@ def observe(world):
     return (len(world.probe.seen), len(world.cl.sent))
 
 
+FULL_BURST = dict(quick=8, thorough=11)
+
+
 def patterns(nbits_span, start_bit, width, tier):
-    '''Error patterns (as lists of absolute bit positions) starting at start_bit.'''
+    '''Error patterns (as lists of absolute bit positions) whose first flipped bit is
+    start_bit: the single flip, EVERY burst of length 2..FULL_BURST[tier] (first and last
+    bit flipped, every combination in between), and for the longer lengths up to the CRC
+    width the solid and the end-points-only pattern.'''
     yield [start_bit]
-    lengths = range(2, width + 1) if tier == 'thorough' else [2, 3, 8, width - 1, width]
+    full = min(FULL_BURST[tier], width)
+    for length in range(2, full + 1):
+        if start_bit + length > nbits_span[1]:
+            return
+        last = start_bit + length - 1
+        for mid in range(1 << (length - 2)):
+            yield [start_bit] + [start_bit + 1 + i for i in range(length - 2) if mid >> i & 1] + [last]
+    lengths = range(full + 1, width + 1) if tier == 'thorough' else [l for l in (12, width - 1, width) if l > full]
     for length in lengths:
         if start_bit + length > nbits_span[1]:
-            break
+            return
         yield list(range(start_bit, start_bit + length))
-        if length > 2:
-            yield [start_bit, start_bit + length - 1]
+        yield [start_bit, start_bit + length - 1]
 
 
 def flip(data, bits):
@@ -72,14 +90,30 @@ def flip(data, bits):
     return bytes(buf)
 
 
+def layout(data):
+    '''Spans of the top-level items of an indefinite-length outer array that is followed
+    by nothing, or None.  No field of any block is interpreted.'''
+    from ..oracle import cbor_min as C
+    try:
+        (items, end, info) = C.load(data, 0)
+    except C.DecodeError:
+        return None
+    if end != len(data) or not isinstance(items, list) or not isinstance(info, dict) or not info.get('indef'):
+        return None
+    if not all(isinstance(it, list) for it in items):
+        return None
+    return [tuple(sp) for sp in info['spans']]
+
+
 def run_bundle(params, known):
     tier = params['tier']
+    (part, nparts) = params.get('part', (0, 1))
     (name, bundle) = [m for m in menu() if m[0] == params['bundle']][0]
     good = B.encode(bundle)
     dec = B.decode(good)
+    good_layout = layout(good)
     violations = []
-    counts = dict(total=0, malformed=0, crc_fail=0, still_valid=0)
-    keys = set()
+    counts = dict(total=0, malformed=0, crc_fail=0, crc_fail_layout_kept=0, still_valid=0, batches=0, batches_rerun=0)
     samples = []
 
     def viol(kind, sig, detail, bits, data):
@@ -94,96 +128,149 @@ def run_bundle(params, known):
     ref.receive(good)
     ref.quiesce()
     ref_obs = observe(ref)
-    if ref_obs == (0, 0) and name != 'local-fragment':
-        viol('pristine-bundle-not-processed', dict(), 'reference run did nothing: %r %r' % (ref.api_errors[:1], ref.escaped[:1]), [], good)
-    for out in ref.sent():
-        try:
-            od = B.decode(out)
-            if not od['primary']['crc_ok'] or not all(b['crc_ok'] for b in od['blocks']):
-                viol('crc-invalid-on-output', dict(), 'agent emitted %s' % out.hex(), [], out)
-        except B.Malformed as err:
-            viol('output-not-rfc9171', dict(), '%s: %s' % (err, out.hex()), [], out)
+    if part == 0:
+        if ref_obs == (0, 0) and name != 'local-fragment':
+            viol('pristine-bundle-not-processed', dict(), 'reference run did nothing: %r %r' % (ref.api_errors[:1], ref.escaped[:1]), [], good)
+        for out in ref.sent():
+            try:
+                od = B.decode(out)
+                if not od['primary']['crc_ok'] or not all(b['crc_ok'] for b in od['blocks']):
+                    viol('crc-invalid-on-output', dict(), 'agent emitted %s' % out.hex(), [], out)
+            except B.Malformed as err:
+                viol('output-not-rfc9171', dict(), '%s: %s' % (err, out.hex()), [], out)
+
+    def judge_one(which, cls, bits, bad):
+        '''Fresh agent: the corrupted copy, then the pristine one.'''
+        w = BpWorld(NODE_PARAMS)
+        w.receive(bad)
+        w.quiesce()
+        after_bad = observe(w)
+        if w.escaped:
+            viol('escaped-exception', dict(exc=w.escaped[-1][0]), 'corrupted copy (%s, %s): %s' % (which, cls, w.escaped[-1][2]), bits, bad)
+            return
+        if cls != 'valid':
+            if after_bad != (0, 0):
+                what = ('the octets are no longer an RFC 9171 bundle' if cls == 'malformed'
+                        else 'the block CRC does not match the received octets')
+                viol('corrupted-bundle-processed', dict(cls=cls),
+                     'bits %r in %s (%s): %s but the agent delivered %d / sent %d bundles'
+                     % (bits, which, cls, what, after_bad[0], after_bad[1]), bits, bad)
+                return
+            w.receive(good)
+            w.quiesce()
+            if observe(w) != ref_obs:
+                viol('pristine-copy-not-processed-after-corrupted-one', dict(),
+                     'bits %r in %s: afterwards the pristine bundle gives %r, alone it gives %r'
+                     % (bits, which, observe(w), ref_obs), bits, bad)
+
+    def judge_batch(batch):
+        '''All corrupted copies of the batch into ONE agent, then the pristine copy: when
+        nothing at all is observed for the corrupted ones and the pristine one is processed
+        exactly as it is alone, every member was dropped without trace.  Anything else:
+        every member is judged again on its own fresh agent.'''
+        counts['batches'] += 1
+        w = BpWorld(NODE_PARAMS)
+        clean = True
+        for (_which, _cls, _bits, bad) in batch:
+            w.receive(bad)
+            w.quiesce()
+            if w.escaped or observe(w) != (0, 0):
+                clean = False
+                break
+        if clean:
+            w.receive(good)
+            w.quiesce()
+            clean = (observe(w) == ref_obs and not w.escaped)
+        if not clean:
+            counts['batches_rerun'] += 1
+            for case in batch:
+                judge_one(*case)
 
     spans = []
     if dec['primary']['crc_type']:
-        spans.append((dec['primary']['span'], 16 if dec['primary']['crc_type'] == 1 else 32, 'primary'))
+        spans.append((dec['primary']['span'], 16 if dec['primary']['crc_type'] == 1 else 32, 'primary', dec['primary']['crc_type']))
     for blk in dec['blocks']:
         if blk['crc_type']:
-            spans.append((blk['span'], 16 if blk['crc_type'] == 1 else 32, 'block%d' % blk['num']))
-    for ((s0, s1), width, which) in spans:
+            spans.append((blk['span'], 16 if blk['crc_type'] == 1 else 32, 'block%d' % blk['num'], blk['crc_type']))
+    batch = []
+    for ((s0, s1), width, which, ctype) in spans:
         for start_bit in range(s0 * 8, s1 * 8):
+            if start_bit % nparts != part:
+                continue
             for bits in patterns((s0 * 8, s1 * 8), start_bit, width, tier):
                 bad = flip(good, bits)
                 counts['total'] += 1
-                try:
-                    bdec = B.decode(bad, strict=False)
-                except B.Malformed:
-                    counts['malformed'] += 1
-                    cls = 'malformed'
-                    bdec = None
-                if bdec is not None:
-                    if bdec['primary']['crc_ok'] and all(b['crc_ok'] for b in bdec['blocks']):
+                if layout(bad) == good_layout:
+                    # same block boundaries: the block's CRC field is where the sender put it, and
+                    # it cannot match the received octets (burst no longer than the CRC width)
+                    n = width // 8
+                    if B.crc_of(ctype, bad[s0:s1 - n] + bytes(n)) == bad[s1 - n:s1]:
                         counts['still_valid'] += 1
                         cls = 'valid'
                     else:
-                        counts['crc_fail'] += 1
-                        cls = 'crcfail'
-                w = BpWorld(NODE_PARAMS)
-                w.receive(bad)
-                w.quiesce()
-                after_bad = observe(w)
-                if w.escaped:
-                    viol('escaped-exception', dict(exc=w.escaped[-1][0]), 'corrupted copy (%s, %s): %s' % (which, cls, w.escaped[-1][2]), bits, bad)
-                    continue
-                if cls == 'crcfail':
-                    keys.add((which, len(bits), bits[0] - s0 * 8))
-                    if after_bad != (0, 0):
-                        viol('corrupted-bundle-processed', dict(),
-                             'bits %r in %s: a block CRC fails but the agent delivered %d / sent %d bundles'
-                             % (bits, which, after_bad[0], after_bad[1]), bits, bad)
-                        continue
-                    w.receive(good)
-                    w.quiesce()
-                    if observe(w) != ref_obs:
-                        viol('pristine-copy-not-processed-after-corrupted-one', dict(),
-                             'bits %r in %s: afterwards the pristine bundle gives %r, alone it gives %r'
-                             % (bits, which, observe(w), ref_obs), bits, bad)
-                    if len(samples) < 2 and counts['crc_fail'] % 997 == 1:
+                        counts['crc_fail_layout_kept'] += 1
+                        cls = 'crcfail-layout'
+                else:
+                    try:
+                        bdec = B.decode(bad, strict=False)
+                        if bdec['primary']['crc_ok'] and all(b['crc_ok'] for b in bdec['blocks']):
+                            counts['still_valid'] += 1
+                            cls = 'valid'
+                        else:
+                            counts['crc_fail'] += 1
+                            cls = 'crcfail'
+                    except B.Malformed:
+                        counts['malformed'] += 1
+                        cls = 'malformed'
+                if cls != 'valid':
+                    batch.append((which, cls, bits, bad))
+                    if len(batch) >= 64:
+                        judge_batch(batch)
+                        batch = []
+                    if len(samples) < 2 and counts['total'] % 997 == 1:
                         samples.append(dict(bundle=name, block=which, bits=bits, corrupted=bad.hex()))
+                else:
+                    judge_one(which, cls, bits, bad)
+    if batch:
+        judge_batch(batch)
     kn, out_v = [], []
     for v in violations:
         ent = known.match(v) if known is not None else None
         (kn if ent else out_v).append(dict(v, entry=ent) if ent else v)
-    return dict(name=params['name'], evaluations=counts['total'], nontrivial_keys=[repr(k) for k in sorted(keys)][:200000],
-                distinct_nontrivial=len(keys), violations=out_v, known=kn, samples=samples,
+    return dict(name=params['name'], evaluations=counts['total'], nontrivial_keys=[],
+                distinct_nontrivial=counts['crc_fail'] + counts['crc_fail_layout_kept'] + counts['malformed'], violations=out_v, known=kn, samples=samples,
                 counts=counts, report_keys=['counts'])
 
 
 def scenarios(tier):
     out = []
+    nparts = 4 if tier == 'quick' else 16
     for (name, bundle) in menu():
         size = len(B.encode(bundle))
-        out.append(dict(name='flip-%s' % name, kind='enum', runner='run_bundle',
-                        params=dict(name='flip-%s' % name, bundle=name, tier=tier), weight=size))
+        for part in range(nparts):
+            nm = 'flip-%s#%d/%d' % (name, part + 1, nparts)
+            out.append(dict(name=nm, kind='enum', runner='run_bundle',
+                            params=dict(name=nm, bundle=name, tier=tier, part=(part, nparts)), weight=size))
     return out
 
 
 ASSUMPTIONS = [
-    'burst errors are enumerated as the solid pattern and the end-points-only pattern for each start bit and length (all single-bit flips; all lengths 2..width in the thorough tier)',
-    'corruptions that make the octets something other than an RFC 9171 bundle (per the independent decoder) are counted but not judged',
+    'error patterns per start bit: the single flip; every burst pattern of length 2..8 (quick) / 2..11 (thorough); for longer bursts up to the CRC width the solid and the end-points-only pattern (quick: lengths 12, width-1, width; thorough: every length)',
+    'every enumerated corruption must be dropped without trace; they are classified by the independent side as: block boundaries kept (the CRC carried in the block then cannot match the received octets), bundle still found by the independent decoder with a failing CRC, or no longer an RFC 9171 bundle at all (e.g. an array head turned into a break, leaving octets after the bundle); a corruption after which every CRC still verifies (impossible for these patterns) would be counted and not judged',
+    'cases are delivered in batches of 64 to one agent followed by the pristine copy; a batch with any observable effect, or after which the pristine copy is not processed exactly as it is alone, is repeated case by case on fresh agents',
     'twelve bundles: CRC-16/CRC-32/mixed, fragment, administrative record, dtn and ipn endpoint IDs, empty payload',
 ]
 
 RULE = ('for each bundle of the menu, every error pattern inside the encoded span of every CRC-protected block is '
-        'delivered to a fresh real agent followed by the pristine copy; a case is non-trivial when the independent '
-        'decoder still finds a bundle and reports a failing block CRC; distinct by (block, pattern length, bit offset)')
+        'delivered to a real agent followed by the pristine copy; every corruption is a distinct case '
+        '(block, start bit, pattern) and non-trivial unless all CRCs still verify')
 
 
 def evidence(tier, seed, scens, results, wall_s):
     ev = enum_evidence(PROP, 'fault_enumeration', tier, seed, scens, results, wall_s, ASSUMPTIONS, RULE)
     good = [r for r in results if r and r.get('kind') == 'enum']
     ev['coverage']['distinct_nontrivial'] = sum(r.get('distinct_nontrivial', 0) for r in good)
-    tot = dict(total=0, malformed=0, crc_fail=0, still_valid=0)
+    tot = dict(total=0, malformed=0, crc_fail=0, crc_fail_layout_kept=0, still_valid=0, batches=0, batches_rerun=0)
     for r in good:
         for k in tot:
             tot[k] += r.get('counts', {}).get(k, 0)
